@@ -133,9 +133,12 @@ template <class E> void c_tmatrix(E& e) {
     for (unsigned short i = 0; i < 2; ++i) for (unsigned short j = 0; j < 3; ++j)
       e.ensure("write through row_view<1>: frame" + ix(i, j), e.eq(m(i, j), i == 1 ? T(2) * A(1, j) + v(j) : A(i, j)));
     auto n = A;
-    n.template column_view<0>() = w;
+    n.template column_view<1>() = w;
     for (unsigned short i = 0; i < 2; ++i) for (unsigned short j = 0; j < 3; ++j)
-      e.ensure("write through column_view<0>: frame" + ix(i, j), e.eq(n(i, j), j == 0 ? w(i) : A(i, j)));
+      e.ensure("write through column_view<1>: frame" + ix(i, j), e.eq(n(i, j), j == 1 ? w(i) : A(i, j)));
+    n.template column_view<2>() = 2 * n.template column_view<2>() - n.template column_view<0>();
+    for (unsigned short i = 0; i < 2; ++i) for (unsigned short j = 0; j < 3; ++j)
+      e.ensure("col2 = 2 col2 - col0 through views: frame" + ix(i, j), e.eq(n(i, j), j == 1 ? w(i) : j == 2 ? T(2) * A(i, 2) - A(i, 0) : A(i, j)));
     auto q = A;
     q.template row_view<0>() = 3 * q.template row_view<0>() - q.template row_view<1>();  // destination aliases an operand
     for (unsigned short i = 0; i < 2; ++i) for (unsigned short j = 0; j < 3; ++j)
